@@ -1,8 +1,8 @@
 #!/bin/sh
-# usage: tools/try.sh <dir with patch.diff> <PID>...   -- run checks on a scratch copy with the patch applied
-d=$(realpath $1); shift
-tmp=$(mktemp -d /tmp/verif-try-XXXXXX)
-cp -r /repo/ceos_alos2 $tmp/ceos_alos2
-(cd $tmp && patch -p1 -s -i $d/patch.diff) || exit 3
-for p in "$@"; do VERIF_EVIDENCE_DIR=$tmp/ev /verif/check $p --repo $tmp 2>&1 | cut -c1-400; done
-rm -rf $tmp
+# usage: tools/try.sh <seeded|equivalents>/<id> C01 C02 ...   - runs the named checks against a scratch copy with the patch applied
+d=$1; shift
+s=$(mktemp -d /tmp/try.XXXXXX)
+rsync -a --exclude .git /repo/ $s/
+(cd $s && patch -s -p1 < /verif/$d/patch.diff) || { echo "patch failed"; rm -rf $s; exit 3; }
+for p in "$@"; do VERIF_EVIDENCE_DIR=$s/.ev /verif/check $p --repo $s 2>&1 | grep -v "^KNOWN" | cut -c1-${TRYW:-700}; done
+rm -rf $s
